@@ -59,6 +59,18 @@ CLAIMED["C11"] = dict(
          "reals, pydantic construction contract, assumed buffer_shapely_geometry contract.",
     technique=TECH + "; lemmas over contracts; bounded stand-in for the GEOS-backed types",
 )
+CLAIMED["C06"] = dict(
+    level="proof",
+    text="compute_affinity, compute_affinity_in_time and _prepare_geometry are proved against a functional contract: the "
+         "result equals the 1-D IoU of the (buffered) time extents whenever either prepared geometry is time-only and the "
+         "area IoU (bounded by 1) otherwise, and always lies in [0,1] -- under an honest shapely area contract that does not "
+         "assume intersection <= area, so the bound must come from the code. Lemmas over the contract: symmetry, self = 1 for "
+         "non-zero extent, 0 when time-disjoint, box pairs = area IoU, time-shift invariance of the 1-D IoU.",
+    note="Relative to assumed contracts: shapely areas (symmetric, self, disjoint, boxes), buffer_geometry (C11), "
+         "compute_bounds (C05). Area-branch symmetry / self / shift on the real library are GEOS facts: bounded stand-in "
+         "affinity_pairs (tolerance 1e-9 relative for those, none for the [0,1] range). Floats as reals (mode R).",
+    technique=TECH + "; functional (pure) contracts so multi-call lemmas are decided over contracts",
+)
 ALL = [f"C{n:02d}" for n in range(1, 21)]
 NOT_APPLICABLE = {p: "check not built yet in this session (work in progress; see DESIGN.md section 12 build order)"
                   for p in ALL if p not in CLAIMED}
